@@ -45,6 +45,8 @@ Definition guard (inp : input) : bool :=
   (* values have the shape of their bind *)
   && forallb (shape_ok inp) order
   && nodupb (keys (i_params inp)) && forallb (fun k => memb k order) (keys (i_params inp))
+  (* bind processors belong to registered binds *)
+  && forallb (fun k => memb k order) (keys (i_procs inp))
   (* the names name_1 .. name_k created for an expanding bind are new *)
   && forallb (fun n =>
        nodupb (xnames inp n)
@@ -64,6 +66,7 @@ Record wf (inp : input) : Prop := {
   w_litv : forall n, In n (i_order inp) -> kind_of inp n = LitExec -> exists v, dget n (i_params inp) = Some v;
   w_pnodup : NoDup (keys (i_params inp));
   w_pkeys : forall k, In k (keys (i_params inp)) -> In k (i_order inp);
+  w_prockeys : forall k, In k (keys (i_procs inp)) -> In k (i_order inp);
   w_xnodup : forall n, In n (i_order inp) -> NoDup (xnames inp n);
   w_xfresh : forall n x, In n (i_order inp) -> In x (xnames inp n) -> ~ In x (i_order inp);
   w_xesc : forall n m x, In n (i_order inp) -> In m (i_order inp) -> In x (xnames inp n) -> x <> esc tab m;
@@ -82,13 +85,14 @@ Lemma guard_wf : forall inp, guard inp = true -> wf inp.
 Proof.
   intros inp H. unfold guard in H.
   apply andb_true_iff in H. destruct H as [H G].
+  apply andb_true_iff in H. destruct H as [H G7].
   apply andb_true_iff in H. destruct H as [H G4].
   apply andb_true_iff in H. destruct H as [H G5].
   apply andb_true_iff in H. destruct H as [H G3].
   apply andb_true_iff in H. destruct H as [H G2].
   apply andb_true_iff in H. destruct H as [H G1].
   apply andb_true_iff in H. destruct H as [G0 G6].
-  rewrite forallb_forall in G0, G1, G2, G3, G4, G.
+  rewrite forallb_forall in G0, G1, G2, G3, G4, G7, G.
   constructor.
   - intros n Hn. specialize (G0 _ Hn). cbn [tok_ok] in G0. apply andb_true_iff in G0. destruct G0 as [A B].
     apply memb_In in A. split; [exact A|]. destruct (kind_of inp n); cbn in B; congruence.
@@ -106,6 +110,7 @@ Proof.
     destruct (dget n (i_params inp)) as [v|]; try discriminate. exists v. reflexivity.
   - apply nodupb_NoDup. exact G5.
   - intros k Hk. apply memb_In. apply G4. exact Hk.
+  - intros k Hk. apply memb_In. apply G7. exact Hk.
   - intros n Hn. specialize (G _ Hn). apply andb_true_iff in G. destruct G as [A _]. apply nodupb_NoDup. exact A.
   - intros n x Hn Hx. specialize (G _ Hn). apply andb_true_iff in G. destruct G as [_ B].
     rewrite forallb_forall in B. specialize (B _ Hx). apply andb_true_iff in B. destruct B as [B _].
